@@ -18,7 +18,7 @@ chk("C04", "gbv/streamfsm+lifecycle",
     "exits returns a fresh load of the position cell; the cell is advanced in the commit closure only on the handler-accepted edge, and every exit of commit after that edge has advanced it; only "
     "initialisation, commit and the rotate arm write it; Stream writes the parser's result back on every path and nothing else stores the resume "
     "position; the next attempt starts there; every accepted event reaches the dispatch (no way round the loop skips the checksum stripping except for the format description, "
-    "before a format is known, or for a kind without an arm), so no rotation or commit is lost to the cell; the dump request carries the stored file and offset (C07-R3, included). It does not decide what the master serves between attempts nor run any history.",
+    "before a format is known, or for a kind without an arm), so no rotation or commit is lost to the cell; nothing is lost between socket and parser - one ReadPacket per decoder call, outside any loop, and every event read is handed over before the next read (R7); the dump request carries the stored file and offset (C07-R3, included). It does not decide what the master serves between attempts nor run any history.",
     "sync/atomic.Value semantics; handler failures are signalled by the returned error.",
     "DESIGN.md 5/C04")
 
@@ -27,7 +27,8 @@ chk("C02", "gbv/streamfsm+dispatch",
     "Decides the effect structure behind the grouping for every event kind and every path: one handler call site (in the commit closure), commit called only "
     "from XID/COMMIT/ROLLBACK arms or from change arms under the 'no BEGIN open' guard, per-arm table of which arms may touch buffer/flag/format/table cache, "
     "required effects on every path of each arm (ROLLBACK clears before committing, change arms append exactly one event), resets only after acceptance, "
-    "case-insensitive and total statement classification. It does not decide SQL tokenisation of unusual text nor run any event sequence.",
+    "case-insensitive and total statement classification; begin installs a freshly allocated buffer. Included: no accepted event skips the dispatch and no packet is filtered before the parser (C04-R6/R7), the QUERY_EVENT layout and "
+    "status-variable scan (C16-R4/R5), every format description adopted (C16-R6). It does not decide SQL tokenisation of unusual text nor run any event sequence.",
     "arm names are derived from the exported Statement*/BinlogEvent API; a new arm that commits needs a table entry.",
     "DESIGN.md 5/C02")
 
@@ -45,7 +46,7 @@ chk("C16", "gbv/streamfsm+wirefmt",
     "Decides: every body parser runs on the checksum-stripped event with the current format; StripChecksum is identity for OFF/UNDEF, a capacity-preserving re-slice "
     "dropping exactly 4 bytes for CRC32 and an error otherwise (all 256 values); the six header accessors read exactly the v4 header ranges, little-endian, and agree with "
     "the package's writer; the fixed-offset reads (with destinations) of Format, Rotate, Query, IntVar, Rand and both GTID parsers equal the documented layouts; the "
-    "status-variable scanner advances by the documented size per code. It decides which bytes reach which result, not the arithmetic performed on them.",
+    "status-variable scanner advances by the documented size per code. Every format description is decoded and adopted (none skipped once a format is known); HeaderSize(t) is entry t-1 of the described table for every described type; accessors and body parsers keep no package-level state. It decides which bytes reach which result, not the arithmetic performed on them.",
     "the MySQL internals documentation of event layouts, encoded as the spec table in rules_c16.go; encoding/binary semantics.",
     "DESIGN.md 5/C16")
 
@@ -53,7 +54,7 @@ chk("C17", "gbv/wirefmt+streamfsm",
     "SCCP over IsValid's comparison regions (exhaustive for its constants); constant-bound check of header accessors; dominance of every event method call by the gate",
     "Decides: IsValid's verdict equals (len>=19 && lengthField==len) on every order region its comparisons can distinguish and touches the buffer only when len>=19; "
     "all index/slice bounds of header accessors are constants within the guaranteed header (also after checksum stripping); every method invoked on a received event in the "
-    "parser is dominated by the accepting edge; the rejecting edge returns a non-nil error and a fresh load of the position cell with no state effect. Body parsers on gate-accepted but "
+    "parser is dominated by the accepting edge; the rejecting edge returns a non-nil error and a fresh load of the position cell with no state effect; every packet reaches the gate (no skip or filter between socket and parser, R5); the header accessors read the exact header ranges (C16-R3, included). Body parsers on gate-accepted but "
     "malformed bodies are outside the statement and not decided.",
     "buffers shorter than 2^31 bytes.",
     "DESIGN.md 5/C17")
@@ -62,7 +63,7 @@ chk("C05", "gbv/lifecycle",
     "goroutine inventory, blocking-operation classification, a three-state publish/close automaton run as a set-valued dataflow with callee transfer functions, dominance (release on every exit), context provenance, who-writes-what for shared cells; VTA reachability in thorough",
     "Decides the structure that makes termination and cleanup hold under every timing: one goroutine; the handler unreachable from it; every blocking channel operation of the reader "
     "escapable; every reader exit publishes then closes; connection close deferred on every exit after construction and the constructor hands the connection out only with a nil error (closing it otherwise, after the driver connection has been stored in the object or directly); the reader's context derived in Stream with a deferred cancel; Error()'s "
-    "receive nil-guarded and its channel always that of a started reader; shared cells and fields written only before the go statement; the parser's only wait is a select with ctx.Done(). "
+    "receive nil-guarded and its channel always that of a started reader; shared cells and fields written only before the go statement; the parser's only wait is a select with ctx.Done(); the packet decoder cannot loop over ReadPacket (no retry or skip loop that never reaches a reader exit) and the reader cannot bypass its hand-off (R10). "
     "It does not decide wall-clock bounds, stalls inside driver handshake calls, or data races inside the driver.",
     "driver facts listed in DESIGN section 2 (only Close unblocks ReadPacket); sync.Once / context / buffered channel semantics; handler and mapper return.",
     "DESIGN.md 5/C05")
@@ -71,7 +72,8 @@ chk("C06", "gbv/lifecycle+streamfsm",
     "nil-ness dataflow on every exit, error-discipline check (test + failure region ends in a return derived from the error), classification by dominating conditions, sentinel-only filtering by edge-cut reachability",
     "Decides: the parser returns nil only on channel-closed / ctx-done edges and provably non-nil errors elsewhere; Stream never returns a typed nil and returns nil only after the parser did; every "
     "error result on the stream path is tested and propagated (one named exception); the packet decoder wraps the transport error, the master's error packet, and produces the EOF sentinel only for EOF "
-    "packets; the reason is published before any channel is closed; Error() can return nil for a received reason only through equality with context.Canceled / errStreamEOF. Timing (the caller-context "
+    "packets; the reason is published before any channel is closed; Error() can return nil for a received reason only through equality with context.Canceled / errStreamEOF; that sentinel is a value of its own (errors.New / fmt.Errorf, never an alias such as io.EOF) and the "
+    "reason channel is received from only by Error(). Timing (the caller-context "
     "filter in Error()) is not decided.",
     "driver facts (ReadPacket never returns empty slice with nil error; HandleErrorPacket decodes the master's message).",
     "DESIGN.md 5/C06")
@@ -89,7 +91,7 @@ chk("C08", "gbv/ownership",
     "Decides the aliasing structure: the transport's reused buffer flows only into len / element reads / the source side of copy and append / HandleErrorPacket and each event is built on a "
     "per-packet allocation; every success return of CellBytes may alias only the event's own buffer or memory allocated in the call (never package-level storage, unknown producers fail closed); "
     "delivered containers are fresh allocations produced in the loop iteration that appends them; no reference-typed field or element of a delivered object is set to memory read out of a "
-    "delivered object (before and after images never share a value's bytes); the buffer handed to the handler is replaced, not re-sliced (C02-R4, included). It does not decide what a handler does through cap() of a delivered slice.",
+    "delivered object (before and after images never share a value's bytes); the buffer handed to the handler is replaced, not re-sliced (C02-R4, included); nothing on the conversion path writes package-level state (no shared tables, pools or scratch buffers). It does not decide what a handler does through cap() of a delivered slice.",
     "the alias model of bytes.Buffer/append/strconv/copy in ownership.go; driver returns a window of a reused buffer; strings immutable.",
     "DESIGN.md 5/C08")
 
@@ -97,7 +99,7 @@ chk("C18", "gbv/ownership",
     "taint fixpoint over SSA for receiver-derived memory + write-instruction check with in-package callee summaries",
     "Decides only the immutability clause and two structural preconditions of canonical form: no method of Mysql56GTIDSet (or in-package callee) writes storage reachable from its receiver; AddGTID's "
     "result map and the interval lists stored into it are allocated in the method; the parser sorts interval lists before storing them and SIDs() sorts its result; the comparators used for sorting "
-    "never decide by the sign of a difference that can wrap; Contains never decides on the number of intervals the two sets hold nor accepts an interval by point lookups of its end points (two shortcuts that are wrong for some pair of sets). Set-algebra agreement "
+    "never decide by the sign of a difference that can wrap; Contains never decides on the number of intervals the two sets hold nor accepts an interval by point lookups of its end points (two shortcuts that are wrong for some pair of sets), nor compare full-width unsigned words as signed numbers; set operations keep no package-level state. Set-algebra agreement "
     "(Contains/Equal/merge correctness) is a statement about values and is not decided.",
     "list of standard-library functions that write through arguments (ownership.go); other stdlib callees do not.",
     "DESIGN.md 5/C18")
@@ -106,7 +108,7 @@ chk("C19", "gbv/dispatch+ownership+wirefmt",
     "registry/implementer cross-check on go/types; write-through taint (as C18); transfer-token comparison of the SID-block writer and reader; separator and field-order agreement between String() and parsers",
     "Decides: every GTID/GTIDSet implementation's constant flavor has a registered parser returning that type; GTIDs are comparable value types; MariadbGTIDSet methods never write the receiver's "
     "storage; SIDBlock and its reader perform the same nested fixed-width little-endian transfers with matching end bias and PREVIOUS_GTIDS feeds the event body to the reader; printing and parsing "
-    "agree on separators and field order; lookups in a MariaDB set (unordered, one position per domain) are full scans - no order-assuming search, no early exit on the order of domain ids, no index carried over from "
+    "agree on separators and field order; lookups in a MariaDB set (unordered, one position per domain) are full scans - no order-assuming search, no early exit on the order of domain ids, no package-level state; the GTID event layouts (C16-R4) and the sorting of parsed interval lists (C18-R3) are included; no index carried over from "
     "an enclosing loop. The round trips themselves are not decided.",
     "encoding/binary transfers the size of the static type.",
     "DESIGN.md 5/C19")
@@ -117,7 +119,7 @@ chk("C09", "gbv/cellcodec",
     "blob widths, boundary string lengths, every CHAR real-type byte; thorough: all 65536 metadata values of the three string types - exhaustive), that both handle the same type codes, that the four "
     "row loops start (ordinal, NULL index) at 0 for every image and move (ordinal, NULL index, offset) by (1,0,0)/(1,1,0)/(1,1,L) on absent/NULL/value paths with L taken for Types[c], Metadata[c], that image "
     "families are not mixed and NULL bitmaps are sized by the present-column count, that bitmap constructors/accessors agree, and that per rows-event type Rows reads the images that type carries and finds the "
-    "column count after the table id, flags and (v2) the self-inclusive extra-data block. It does not decide that row counts and bytes equal what a master encoded.",
+    "column count after the table id, flags and (v2) the self-inclusive extra-data block. Splitting and decoding keep no package-level state (R7). Included: the right table map reaches the rows (C15-R1/R3), per-type metadata layout (C15-R5), the event is a private copy of the packet (C08-R1), stripped with the current format (C16-R1/R6). It does not decide that row counts and bytes equal what a master encoded.",
     "H-sccp models Go's modular integer arithmetic; dig2bytes is proven constant; metadata domains as MySQL produces them.",
     "DESIGN.md 5/C09")
 
@@ -125,7 +127,7 @@ chk("C10", "gbv/cellcodec",
     "H-sccp specialisation per type + canonical value terms (H-term) compared with the documented decoding; operand provenance at the decoder call sites",
     "Decides API-usage and dependence facts without which the text cannot be exact: type, metadata, signedness, name and type are taken at one column ordinal; for each integer width the returns keyed "
     "by the unsigned flag are base-10 text of the little-endian value / of its two's-complement reinterpretation at exactly that width (INT24 sign bit and extension); FLOAT/DOUBLE use AppendFloat('f', -1, 32|64) "
-    "on the little-endian IEEE bits; YEAR, ENUM (also as CHAR real type), BIT and SET shapes; the per-type metadata layout of these types (C15-R5 and the length rule C09-R2 for these types, included). The numeric results themselves (strconv, math) are trusted, not decided.",
+    "on the little-endian IEEE bits; YEAR, ENUM (also as CHAR real type), BIT and SET shapes; the per-type metadata layout of these types (included: the decode chain of DESIGN 9.5 - C15-R1/R3/R5, C09-R2..R5/R7, C08-R1/R2). The numeric results themselves (strconv, math) are trusted, not decided.",
     "canonical terms are compared syntactically after normalisation; an algebraically different but equivalent decoder needs a table update.",
     "DESIGN.md 5/C10")
 
@@ -134,14 +136,14 @@ chk("C11", "gbv/cellcodec",
     "Decides necessary conditions for every valid (p,s): an integer digit is definitely written before the decimal point and before every success return (zero never decodes to an empty or sign-only value); no "
     "verb pads with spaces; the cursor of each 9-digit-group loop advances by 4 on every way round; after the "
     "'.' exactly the verbs %09d (s/9 times) and %0Nd (N = s mod 9) are reachable, fed by big-endian reads of the tabulated widths, and integer groups use only %09d/%d/strconv; dig2bytes is constant and equals "
-    "MySQL's table; the DECIMAL metadata layout (C15-R5 and the length rule C09-R2 for these types, included). The digit arithmetic and negative inversion are not decided.",
+    "MySQL's table; the DECIMAL metadata layout (included: the decode chain of DESIGN 9.5 - C15-R1/R3/R5, C09-R2..R5/R7, C08-R1/R2). The digit arithmetic and negative inversion are not decided.",
     "fmt verb semantics; strconv.AppendUint yields at least one digit.",
     "DESIGN.md 5/C11")
 
 chk("C12", "gbv/cellcodec",
     "H-sccp per (type, fsp) + reachable-format and argument-term checks; canonical value terms of the fixed layouts compared with the documented packings",
     "Decides: per fsp the only reachable fraction format prints exactly fsp digits of the big-endian fraction bytes (divided by 10 for odd fsp - for TIME2 as the last step, after the borrow for negative values); TIMESTAMP text comes from time.Unix in the local zone with "
-    "the fields in order and the documented zero literal, and no returned text lives in package-level storage (C08-R2, included); the fsp metadata layout (C15-R5 and the length rule C09-R2 for these types, included); DATE/NEWDATE/DATETIME/DATETIME2/TIMESTAMP/TIMESTAMP2 extract their fields from the documented bit and decimal packings. TIME/TIME2 sign and hour "
+    "the fields in order and the documented zero literal, and no returned text lives in package-level storage (C08-R2, included); the fsp metadata layout (included: the decode chain of DESIGN 9.5 - C15-R1/R3/R5, C09-R2..R5/R7, C08-R1/R2); DATE/NEWDATE/DATETIME/DATETIME2/TIMESTAMP/TIMESTAMP2 extract their fields from the documented bit and decimal packings. TIME/TIME2 sign and hour "
     "arithmetic and out-of-range rendering are not decided (a known mis-rendering of negative pre-5.6.4 TIME is outside static reach, see DESIGN).",
     "canonical terms are compared syntactically after normalisation.",
     "DESIGN.md 5/C12")
@@ -151,7 +153,7 @@ chk("C13", "gbv/cellcodec",
     "Decides: for VARCHAR/VAR_STRING/CHAR/blobs/GEOMETRY the value is the direct sub-slice after a prefix whose width follows the declared maximum (thorough: all 65536 metadata values, exhaustive); in the "
     "streamer absent/NULL/value are delivered as {IsEmpty}, {nil data}, {decoder result}, each appended exactly once, and IsEmpty is set nowhere else; the decoder can fail for a string cell only "
     "when the cell does not fit the buffer (never on content, never on an empty value at the end of the image); the column loops leave towards success only when the ordinal reached the column "
-    "count (trailing absent columns are delivered); ordinal/NULL-index bookkeeping of those loops (C09-R3), the agreement of the length rule with the decoder (C09-R2) and the metadata layout (C15-R5) of the string types are included. Byte equality with the master follows given a "
+    "count (trailing absent columns are delivered); ordinal/NULL-index bookkeeping of those loops (C09-R3), and the rest of the decode chain of DESIGN 9.5 (C15-R1/R3/R5, C09-R2..R5/R7, C08-R1/R2) are included. Byte equality with the master follows given a "
     "well-formed image and is not decided on its own.",
     "a sub-slice of a non-nil image is non-nil even when empty.",
     "DESIGN.md 5/C13")
@@ -160,7 +162,7 @@ chk("C15", "gbv/streamfsm+cellcodec+wirefmt",
     "must-pass-through and dominance on the table-cache arm; SCCP over 256 type codes for the three metadata siblings; SCCP over header-size classes and lenenc prefix classes with canonical terms; read-fact extraction of the table-map body",
     "Decides: the decoded map always reaches the cache entry of its own table id; insertion only on the equal edge of the column-count comparison, mismatch is an error; mapper asked for (Database, Name) "
     "and the name constructor keeps that order; rows arms use the entry of their own id and fail on a missing id; per-image count guards; metadataLength/Read/Write agree with each other and with MySQL's "
-    "per-type layout for all 256 codes; TableID/TableMap/Rows choose the table-id width identically; the table-map body is read at the documented offsets, nothing after the NULL bitmap is read and no failing exit depends on bytes remaining after it (optional metadata of newer masters); "
+    "per-type layout for all 256 codes; TableID/TableMap/Rows choose the table-id width identically; the table-map body is read at the documented offsets, nothing after the NULL bitmap is read and no failing exit depends on bytes remaining after it (optional metadata of newer masters); parsing keeps no package-level state; name, type, metadata and signedness are taken at one column ordinal (C10-R1, included) and the event is a private copy of the packet (C08-R1, included); "
     "readLenEncInt composes exactly n little-endian bytes, advances by 1+n and bounds-checks. End-to-end decoding of arbitrary schemas is not decided.",
     "MySQL internals documentation of TABLE_MAP_EVENT and per-type metadata (spec tables in rules_c15.go).",
     "DESIGN.md 5/C15")
@@ -181,7 +183,7 @@ chk("C14", "gbv/dispatch+cellcodec",
     "Decides dispatch completeness and the layout rules of MySQL's binary JSON that do not depend on the document: exactly the declared type codes are handled (containers with the right size class), the "
     "opaque sub-dispatch handles exactly DATE/TIME/DATETIME/NEWDECIMAL on the size-prefixed payload, a value entry is inlined iff its payload fits the entry (2 bytes, 4 in the large format) with the same "
     "printer and width, every offset/size read uses the container's size class except the key length, entry stride 3/5, the offset reader composes 2/4 little-endian bytes, scalar printers render the "
-    "documented widths/signedness; the JSON column's metadata layout (C15-R5 and the length rule C09-R2 for these types, included). Rendering of arbitrary documents (nesting, order, offsets, escaping, opaque arithmetic) is not decided.",
+    "documented widths/signedness; the entry printer never rejects an out-of-line value that starts inside the document (R6); the JSON column's metadata layout (included: the decode chain of DESIGN 9.5 - C15-R1/R3/R5, C09-R2..R5/R7, C08-R1/R2). Rendering of arbitrary documents (nesting, order, offsets, escaping, opaque arithmetic) is not decided.",
     "MySQL json_binary.cc layout constants encoded in rules_c14.go.",
     "DESIGN.md 5/C14")
 
@@ -189,7 +191,7 @@ chk("C20", "gbv/jsonshape+dispatch",
     "encoding/json type walk on go/types from every json.Marshal call; effective JSON field sets (tags, embedding, conflicts) joined with field-wise value provenance; totality of the name tables",
     "Decides: marshalling cannot fail (only always-marshalable kinds, no recursion, only the package's own Marshalers, each returning exactly its json.Marshal result); every source field the statement "
     "lists reaches a visible, non-omitempty JSON field in every branch; name tables are total, distinct and looked up by the receiver; the data field is null exactly when c.Data == nil and the string "
-    "otherwise. encoding/json's escaping and invalid-UTF-8 replacement are trusted, not decided.",
+    "otherwise. encoding/json's escaping and invalid-UTF-8 replacement are trusted, not decided. The name printed for a wire type is the name of that wire type (constants cannot be swapped); marshalers keep no package-level state; the NULL / empty / absent stores of the streamer (C13-R2) are included.",
     "encoding/json field-selection rules as re-implemented in rules_c20.go.",
     "DESIGN.md 5/C20")
 
